@@ -137,9 +137,27 @@ func runC10(c *sim.Ctx) *sim.Violation {
 		}
 	}
 	typ := a.TypeName()
-	p, _, berr := buildGuard(a, t)
-	if berr != nil {
-		return sim.V("C10/"+typ+"/build", "cannot build %s through the API: %v", typ, berr)
+	var p mq.Packet
+	origin := "built through the API"
+	if malformed == "" && t.Bool(1, 6) {
+		// a packet that came off the wire (decoded from a valid stub frame, any legal
+		// short form, properties in any order) and is written out again: a bridge
+		sc := specCfg(c)
+		sc.NoHuge = true
+		a2 := gen.Packet(t, sc)
+		f0, _ := ref.Encode(a2)
+		if o := ReadOne(link.NewReader(c, f0, link.Mode{})); o.Kind == "packet" {
+			a = a2
+			p, typ, origin = o.P, a.TypeName(), "decoded from the valid frame "+hexs(f0)
+			c.Count("probe.packet-decoded-from-the-wire-then-written")
+		}
+	}
+	if p == nil {
+		var berr error
+		p, _, berr = buildGuard(a, t)
+		if berr != nil {
+			return sim.V("C10/"+typ+"/build", "cannot build %s through the API: %v", typ, berr)
+		}
 	}
 	// (1) a writer that accepts everything; one time in three it also offers
 	// WriteString / WriteByte / ReadFrom (bait for type-switching fast paths)
@@ -161,7 +179,7 @@ func runC10(c *sim.Ctx) *sim.Violation {
 	}
 	B := w.Buf
 	desc := func() string {
-		return fmt.Sprintf("%s %s built through the API; WriteTo(accepting writer) -> n=%d err=%v, writer received %d bytes in %d calls: %s",
+		return fmt.Sprintf("%s %s "+origin+"; WriteTo(accepting writer) -> n=%d err=%v, writer received %d bytes in %d calls: %s",
 			typ, malformed, n, err, len(B), w.Calls, hexs(B))
 	}
 	if err != nil {
